@@ -85,7 +85,9 @@ func ruleFieldBij(r *Run) {
 		pos   ssa.Instruction
 	}
 	setM := map[string]*info{} // XML field → PageSettings fields read
-	allInstrs(setFn, func(in ssa.Instruction) {
+	// SetPageSettings and the private helpers it builds the section XML with (newPageMargin(settings) …)
+	setGroup := helperGroup(p, setFn)
+	forEachInstr(setGroup, func(in ssa.Instruction) {
 		st, ok := in.(*ssa.Store)
 		if !ok {
 			return
@@ -98,7 +100,8 @@ func ruleFieldBij(r *Run) {
 		if o == nil || !xmlOwners[o.Obj().Name()] {
 			return
 		}
-		res := sl.Slice(st.Val)
+		res := sl.SliceWithControl(st.Val, st)
+		res = withCallerControl(p, sl, res, st, setFn)
 		k := o.Obj().Name() + "." + fv.Name()
 		if setM[k] == nil {
 			setM[k] = &info{reads: map[string]bool{}, res: res, pos: st}
